@@ -43,6 +43,74 @@ package randdata
 //@   requires ty != nil && (forall i int :: 0 <= i && i < len(ty.Fields) ==> ty.Fields[i].Field != nil)
 //@   modifies *
 //@   loop ty.Fields.1 endassert !field.Field.Exported() || field.Tag.Get("gomacro-data") == "ignore" ==> fieldsCode == athead(fieldsCode) && decls == athead(decls)
+//@   -- every other field is assigned from the generator of ITS type, under its own name; the assignments are what the body prints
+//@   callverb fmt.Sprintf "s.%* = rand%s()" field.Field.Name()
+//@   callverb fmt.Sprintf "s.%s = rand%*()" ctx.functionID(field.Type)
+//@   callverb fmt.Sprintf "func rand%*() %s { var s" ctx.functionID(ty)
+//@   callverb fmt.Sprintf "func rand%s() %* { var s" ctx.typeName(ty)
+//@   callverb fmt.Sprintf "var s %* %s return s" ctx.typeName(ty)
+//@   callverb fmt.Sprintf "var s %s %* return s" fieldsCode
+
+// ---- the emitted generators of composite types call the generators of THEIR components (C15: "fixed arrays, slices
+// and maps are populated with well-formed elements"): what each verb of the templates prints is pinned, robust to
+// reordering of the arguments (callverb; %* marks the verb of interest). The meaning of the emitted Go is not decided here.
+
+// names of types and of their generators: functions of the node and the target package (nodes are read only)
+//@ func context.typeName
+//@   props C15
+//@   pure
+//@   nosafety
+//@ func context.functionID
+//@   props C15
+//@   pure
+//@   nosafety
+
+// func rand<id(ty)>() *<elem> { data := rand<id(elem)>(); return &data }
+//@ func context.codeForPointer
+//@   props C15
+//@   nosafety
+//@   modifies *
+//@   callverb fmt.Sprintf "func rand%*() *%s {" ctx.functionID(ty)
+//@   callverb fmt.Sprintf "func rand%s() *%* {" ctx.typeName(ty.Elem)
+//@   callverb fmt.Sprintf "data := rand%*()" ctx.functionID(ty.Elem)
+
+// fixed arrays have the length of the type and every slot is filled by the element generator; slices likewise
+//@ func context.codeForArray
+//@   props C15
+//@   nosafety
+//@   modifies *
+//@   callverb fmt.Sprintf "func rand%*() [%s]%s {" ctx.functionID(ty)
+//@   callverb fmt.Sprintf "func rand%s() [%*]%s {" ty.Len
+//@   callverb fmt.Sprintf "func rand%s() [%s]%* {" ctx.typeName(ty.Elem)
+//@   callverb fmt.Sprintf "var out [%*]%s" ty.Len
+//@   callverb fmt.Sprintf "var out [%s]%* for" ctx.typeName(ty.Elem)
+//@   callverb fmt.Sprintf "func rand%*() []%s {" ctx.functionID(ty)
+//@   callverb fmt.Sprintf "func rand%s() []%* {" ctx.typeName(ty.Elem)
+//@   callverb fmt.Sprintf "out := make([]%*, l)" ctx.typeName(ty.Elem)
+//@   callverb fmt.Sprintf "out[i] = rand%*()" ctx.functionID(ty.Elem)
+
+// keys come from the key generator, values from the element generator
+//@ func context.codeForMap
+//@   props C15
+//@   nosafety
+//@   modifies *
+//@   callverb fmt.Sprintf "func rand%*() map[%s]%s {" ctx.functionID(ty)
+//@   callverb fmt.Sprintf "func rand%s() map[%*]%s {" ctx.typeName(ty.Key)
+//@   callverb fmt.Sprintf "func rand%s() map[%s]%* {" ctx.typeName(ty.Elem)
+//@   callverb fmt.Sprintf "out := make(map[%*]%s, l)" ctx.typeName(ty.Key)
+//@   callverb fmt.Sprintf "out := make(map[%s]%*, l)" ctx.typeName(ty.Elem)
+//@   callverb fmt.Sprintf "out[rand%*()] = rand%s()" ctx.functionID(ty.Key)
+//@   callverb fmt.Sprintf "out[rand%s()] = rand%*()" ctx.functionID(ty.Elem)
+
+// a named type converts what the generator of its underlying type returns
+//@ func context.codeForNamed
+//@   props C15
+//@   nosafety
+//@   modifies *
+//@   callverb fmt.Sprintf "func rand%*() %s {" ctx.functionID(ty)
+//@   callverb fmt.Sprintf "func rand%s() %* {" ctx.typeName(ty)
+//@   callverb fmt.Sprintf "return %*(rand%s())" ctx.typeName(ty)
+//@   callverb fmt.Sprintf "return %s(rand%*())" ctx.functionID(ty.Underlying)
 
 // the identifier of a named type without type arguments: its name when it is declared in the target PACKAGE
 // (identity of the package, not of its name), the name prefixed by (at most three letters of) its package name otherwise
